@@ -9,6 +9,7 @@ expected SI value of every field is therefore known before repository code
 runs.
 """
 import math
+import copy
 import random
 
 from vf import si
@@ -46,6 +47,12 @@ def per_env(r, envs, draw, allow_zero=True, p_scalar=0.4):
         return one()
     keys = [e for e in envs if r.random() < 0.7]
     d = {e: one() for e in keys}
+    if len(keys) >= 2 and r.random() < 0.25:
+        # exact ties: several environments listed with the very same non-zero value (still a per-environment value: an
+        # environment that is not listed keeps "default" / 0)
+        tie = draw()
+        for e in (keys if r.random() < 0.5 else r.sample(keys, 2)):
+            d[e] = tie
     if r.random() < 0.5 or not d:
         d["default"] = one()
     return d
@@ -368,7 +375,15 @@ class Rendering:
         if isinstance(v, dict):
             keys = list(v)
             self.r.shuffle(keys)            # the meaning of a per-environment dictionary does not depend on its key order
-            return self.keep({k: self.q(v[k], dim3, enclosing) for k in keys})
+            out, written = {}, {}
+            for k in keys:
+                # equal values are, half of the time, also written identically (one form, one unit)
+                if v[k] in written and v[k] != 0 and self.r.random() < 0.5:
+                    out[k] = copy.deepcopy(written[v[k]])
+                else:
+                    out[k] = self.q(v[k], dim3, enclosing)
+                    written[v[k]] = out[k]
+            return self.keep(out)
         return self.q(v, dim3, enclosing)
 
     def seq(self, values, integer=False):
@@ -568,7 +583,14 @@ def _q_json(rd, si_value, dim3, enclosing):
 
 def _per_env_json(rd, v, dim3, enclosing):
     if isinstance(v, dict):
-        return {k: _q_json(rd, x, dim3, enclosing) for k, x in v.items()}
+        out, written = {}, {}
+        for k, x in v.items():
+            if x in written and x != 0 and rd.r.random() < 0.5:
+                out[k] = written[x]
+            else:
+                out[k] = _q_json(rd, x, dim3, enclosing)
+                written[x] = out[k]
+        return out
     return _q_json(rd, v, dim3, enclosing)
 
 
